@@ -146,6 +146,11 @@ func c14History(r *rep.Reporter, s *drv.Server, kind, bucket string, hi int, key
 				l = append(l, model.CompletePart{N: n, ETag: u.Parts[n].ETag})
 			}
 			if _, resp := mpComplete(s, bucket, idKey[ui], ids[ui], l); resp.Status != 200 {
+				if drv.IsFs(kind) && resp.Status == 400 && resp.ErrCode() == "InvalidArgument" {
+					// the file backends cannot hold "b" next to "b/y": the complete is refused and the upload stays pending
+					trace = append(trace, fmt.Sprintf("complete upload#%d refused (key conflicts with an existing key)", ui))
+					continue
+				}
 				fail("complete-failed", "", resp.String(), nil)
 				return
 			}
